@@ -116,6 +116,7 @@ def workerReports (env : Env) (c : Cfg) : QItem → List Event
 
 /-- stderr, when it fails, fails with an error `print` swallows (DESIGN §4 C04 *Outside*) -/
 def StderrTame (env : Env) : Prop :=
-  ∀ i h e, env.stderr i h = .fails e → e = .osError
+  (∀ i h e, env.stderr i h = .fails e → e = .osError) ∧
+  (∀ i h c e, env.stderr i h = .failsAt c e → e = .osError)
 
 end Emit.Spec
